@@ -33,6 +33,10 @@ DEFAULT_PROFILE = {
     "p_npt": 0.5,
     "p_target": 0.1,
     "p_wide_radii": 0.1,
+    "p_mutating_functions": 0.08,
+    "p_no_options": 0.04,
+    "force_n": None,
+    "p_narrow_box": 0.0,
     "maxfev_hi": 90,
     "obj_fams": [(4, "quad"), (1.5, "cubic"), (1.5, "rosen"), (1.5, "abs"), (1, "maxaff"), (1, "linear"), (0.5, "const")],
     "con_fams": [(3, "ball"), (2, "ellipsoid"), (2, "affine"), (1, "product"), (1, "sine")],
@@ -250,7 +254,7 @@ def gen_nonlinear(rng, n, prof, twin_of=None):
         for cs in comps:
             if spec["type"] == "ineq":
                 cs["sign"] = -1.0
-        spec["args"] = [rng.nice(-0.5, 0.5)] if rng.chance(0.3) else None
+        spec["args"] = [rng.nice(-0.5, 0.5)] if rng.chance(0.45) else None
         spec["ret"] = rng.pick(["ndarray", "list", "tuple"] + (["scalar", "scalar"] if m == 1 else []))
         return spec
     lb, ub = [], []
@@ -385,11 +389,19 @@ def gen_options(rng, stmt, prof):
 def gen_statement(rng, prof=None):
     prof = prof or DEFAULT_PROFILE
     n = rng.wpick(prof["n_weights"])
+    if prof.get("force_n"):
+        n = prof["force_n"]
     stmt = {"n": n}
     want_scale = rng.chance(prof["p_scale"])
     b = None
     if rng.chance(prof["p_bounds"]) or want_scale:
         b = gen_bounds(rng, n, prof, need_finite=want_scale)
+        if rng.chance(prof.get("p_narrow_box", 0.0)):
+            i = rng.randrange(n)
+            if b["kinds"][i] in ("two", "free", "lower", "upper"):
+                c0 = rng.nice(-2, 2)
+                b["lb"][i], b["ub"][i] = c0, c0 + rng.pick([0.25, 0.5, 1.0])
+                b["kinds"][i] = "two"
     stmt["bounds"] = b
     x0, where = gen_x0(rng, n, b)
     stmt["x0"] = x0
@@ -406,6 +418,8 @@ def gen_statement(rng, prof=None):
             obj["salt"] = rng.randrange(1000)
         obj["ret"] = rng.wpick([(4, "float"), (2, "np64"), (1, "arr0"), (1, "arr1"), (1, "int")])
         obj["args"] = [rng.nice(-1, 1)] if rng.chance(0.2) else None
+        if rng.chance(prof["p_mutating_functions"]):
+            obj["mutates"] = True
         stmt["obj"] = obj
     # constraints
     lin = []
@@ -417,6 +431,9 @@ def gen_statement(rng, prof=None):
     if rng.chance(prof["p_nonlinear"]) or stmt["obj"] is None:
         for _ in range(rng.wpick([(5, 1), (2, 2), (1, 3)])):
             nl.append(gen_nonlinear(rng, n, prof))
+    for ns in nl:
+        if rng.chance(prof["p_mutating_functions"]):
+            ns["mutates"] = True
     stmt["nonlinear"] = nl
     if len(lin) + len(nl) > 1 and rng.chance(0.4):
         # interleave linear and nonlinear objects
@@ -436,6 +453,9 @@ def gen_statement(rng, prof=None):
         stmt["options"]["scale"] = True
     if rng.chance(0.1):
         stmt["options"] = stmt["options"] or None
+    if rng.chance(prof["p_no_options"]):
+        # a plain default call: options=None (or an empty dict)
+        stmt["options"] = None if rng.chance(0.7) else {}
     stmt["constants"] = gen_constants(rng) if rng.chance(prof["p_constants"]) else {}
     return stmt
 
